@@ -147,6 +147,55 @@ fn c02_case(ctx: &Ctx, case: u64, acc: &mut Acc) -> Verdict {
     Ok(())
 }
 
+/// Long fault-free runs of small clusters: more than 256 probe rounds per instance, so that every
+/// wrapping counter (probe numbers are u8) goes all the way round at least once.
+fn c02_long(ctx: &Ctx, case: u64, acc: &mut Acc) -> Verdict {
+    let mut r = Rng64::derive(ctx.seed, 0xC02F, case);
+    let n = r.range(2, 4) as usize;
+    let p = *r.pick(&[R * 22 / 10, R * 3]);
+    let cfg = Cfg {
+        p,
+        r: R,
+        k: r.range(1, 3) as usize,
+        tx: r.range(1, 10) as u8,
+        s2d: p * 3,
+        rda: 86_400_000_000,
+        mps: 1400,
+        notify_down: r.chance(1, 2),
+        pa: if r.chance(1, 2) { Some((7 * p, 1)) } else { None },
+        pad: None,
+        pg: if r.chance(1, 2) { Some((p / 2, 2)) } else { None },
+    };
+    let codec = *r.pick(&[CodecKind::Hand, CodecKind::Postcard]);
+    let mut sim = Sim::new(r.next(), codec, (1, R / 4));
+    for a in 0..n {
+        sim.add(a as u16, cfg.clone(), Renew::None, HdlCfg::disabled(), None);
+    }
+    let mut safety = |s: &Sim, i: usize, rec: &CallRec| -> Result<(), V> {
+        let who = s.nodes[i].node.id();
+        if let Res::Err(e) = &rec.res {
+            return Err(V::new("C02/error-returned", format!("{who:?}: {} returned {e:?} in a fault-free run at t={}us (period {})", rec.op.name(), s.now, s.now / rec.cfg_pre.p)));
+        }
+        for n in rec.notes() {
+            ensure!(!matches!(n, N::MemberDown(_) | N::Idle | N::Defunct | N::Rejoin(_)), "C02/bad-notification", "{who:?} notified {n:?} in a fault-free run at period {}", s.now / rec.cfg_pre.p);
+        }
+        for m in &rec.post.state {
+            ensure!(m.state() == State::Alive, "C02/false-suspicion", "{who:?} records live member {m:?} at t={}us (probe period {})", s.now, s.now / rec.cfg_pre.p);
+        }
+        Ok(())
+    };
+    let last = form(&mut sim, n, Join::SeqToFirst, 2 * p, acc, &mut safety)?;
+    let periods = 300 + r.below(320);
+    sim.run_until(last + periods * p, acc, &mut safety)?;
+    ensure!(sim.full_view(), "C02/discovery-too-slow", "n={n}: no full view after {periods} periods");
+    sim.tally_into(acc);
+    acc.tally("long_fault_free_runs", 1);
+    acc.max("longest_run_in_probe_periods", periods);
+    acc.nontrivial(fp(&("long", n, periods, format!("{cfg:?}"))));
+    acc.sample(|| json!({"workload": "long", "n": n, "periods": periods, "calls": sim.calls}));
+    Ok(())
+}
+
 // ------------------------------------------------------------------ shared formation
 
 struct Formed {
@@ -621,7 +670,10 @@ pub fn c02() -> Check {
         rule: "discrete-event simulation of n real instances (2..=8 quick, 2..=24 thorough), every datagram delayed by a seeded latency in [1us, probe_rtt/4), timers exactly on time, 5 join schedules, random fan-out 1..=4, max_transmissions 1..=10, periodic gossip/announce on or off, probe_period in {2.2,3,5} x probe_rtt, packet sizes from header+1 member to 1400, 5 codecs. Safety clause asserted after every call of every instance; discovery clause as bounded progress (4n+4 periods) for every pair related in at least one direction when joining ends (pairs related in neither direction depend on gossip luck and are only tallied). Distinct by (n, schedule, config, codec).",
         assumptions: &["transport delivers every datagram with latency < probe_rtt/4 and the runtime fires timers exactly at their deadline (the simulator does)", "discovery bound 4n+4 periods instantiates the statement's 'linear in the cluster size'"],
         required: &["fault_free_runs", "runs_with_complete_relation", "sim_datagram/Ping", "sim_datagram/Feed"],
-        workloads: vec![Workload { name: "faultfree", f: c02_case, quick: 2_500, thorough: 120_000, flav: Flav::Checked }],
+        workloads: vec![
+            Workload { name: "faultfree", f: c02_case, quick: 2_500, thorough: 120_000, flav: Flav::Checked },
+            Workload { name: "long", f: c02_long, quick: 160, thorough: 8_000, flav: Flav::Checked },
+        ],
         exhaustive: false,
     }
 }
